@@ -9,6 +9,7 @@ import (
 	"go/types"
 	"os"
 	"strings"
+	"unsafe"
 
 	"golang.org/x/tools/go/ssa"
 )
@@ -60,32 +61,102 @@ type frame struct {
 }
 
 // fnMeta numbers the SSA values of a function so that the environment is a slice.
+// Lookups go through an open-addressing table keyed by the value's address
+// (Go's collector does not move heap objects); scalar constants are cached there too.
 type fnMeta struct {
-	index map[ssa.Value]int
-	n     int
-	pure  int8 // 0 unknown, 1 pure acyclic, -1 not
+	tab  []slotEntry // power-of-two size
+	mask uintptr
+	n    int
+	pure int8 // 0 unknown, 1 pure acyclic, -1 not
+}
+
+type slotEntry struct {
+	key   uintptr
+	idx   int32 // >= 0: environment slot; -1: cached constant
+	konst Value
+}
+
+func valuePtr(v ssa.Value) uintptr {
+	return (*[2]uintptr)(unsafe.Pointer(&v))[1]
+}
+
+func (m *fnMeta) find(k uintptr) *slotEntry {
+	i := (k >> 4 * 0x9E3779B97F4A7C15 >> 20) & m.mask
+	for {
+		e := &m.tab[i]
+		if e.key == k {
+			return e
+		}
+		if e.key == 0 {
+			return nil
+		}
+		i = (i + 1) & m.mask
+	}
+}
+
+func (m *fnMeta) insert(k uintptr, idx int32, konst Value) {
+	i := (k >> 4 * 0x9E3779B97F4A7C15 >> 20) & m.mask
+	for m.tab[i].key != 0 {
+		if m.tab[i].key == k {
+			return
+		}
+		i = (i + 1) & m.mask
+	}
+	m.tab[i] = slotEntry{key: k, idx: idx, konst: konst}
+}
+
+func (m *fnMeta) slot(v ssa.Value) int {
+	if e := m.find(valuePtr(v)); e != nil && e.idx >= 0 {
+		return int(e.idx)
+	}
+	panic(fmt.Sprintf("no environment slot for %T %v", v, v.Name()))
 }
 
 func (e *Engine) metaOf(fn *ssa.Function) *fnMeta {
 	if m, ok := e.metas.Load(fn); ok {
 		return m.(*fnMeta)
 	}
-	m := &fnMeta{index: map[ssa.Value]int{}}
-	add := func(v ssa.Value) {
-		m.index[v] = m.n
-		m.n++
-	}
+	var vals []ssa.Value
+	var consts []*ssa.Const
+	seenConst := map[*ssa.Const]bool{}
 	for _, p := range fn.Params {
-		add(p)
+		vals = append(vals, p)
 	}
 	for _, fv := range fn.FreeVars {
-		add(fv)
+		vals = append(vals, fv)
 	}
+	var ops []*ssa.Value
 	for _, b := range fn.Blocks {
 		for _, ins := range b.Instrs {
 			if v, ok := ins.(ssa.Value); ok {
-				add(v)
+				vals = append(vals, v)
 			}
+			ops = ins.Operands(ops[:0])
+			for _, op := range ops {
+				if op == nil || *op == nil {
+					continue
+				}
+				if c, ok := (*op).(*ssa.Const); ok && !seenConst[c] {
+					seenConst[c] = true
+					consts = append(consts, c)
+				}
+			}
+		}
+	}
+	size := 8
+	for size < 2*(len(vals)+len(consts))+2 {
+		size *= 2
+	}
+	m := &fnMeta{tab: make([]slotEntry, size), mask: uintptr(size - 1)}
+	for _, v := range vals {
+		m.insert(valuePtr(v), int32(m.n), nil)
+		m.n++
+	}
+	for _, c := range consts {
+		// only immutable scalar constants are cached
+		switch kv := constValueOf(c).(type) {
+		case bool, int64, float64, string:
+			m.insert(valuePtr(c), -1, kv)
 		}
 	}
 	actual, _ := e.metas.LoadOrStore(fn, m)
@@ -93,6 +164,12 @@ func (e *Engine) metaOf(fn *ssa.Function) *fnMeta {
 }
 
 func (fr *frame) get(v ssa.Value) Value {
+	if e := fr.meta.find(valuePtr(v)); e != nil {
+		if e.idx >= 0 {
+			return fr.env[e.idx]
+		}
+		return e.konst
+	}
 	switch v := v.(type) {
 	case *ssa.Const:
 		return fr.ex.constValue(v)
@@ -102,9 +179,6 @@ func (fr *frame) get(v ssa.Value) Value {
 		return v
 	case *ssa.Builtin:
 		return v
-	}
-	if i, ok := fr.meta.index[v]; ok {
-		return fr.env[i]
 	}
 	panic(fmt.Sprintf("get: no binding for %T %v in %s", v, v.Name(), fr.fn))
 }
@@ -118,7 +192,22 @@ func (fr *frame) getOpt(v ssa.Value) Value {
 }
 
 func (fr *frame) set(v ssa.Value, x Value) {
-	fr.env[fr.meta.index[v]] = x
+	fr.env[fr.meta.slot(v)] = x
+}
+
+// constValueOf is constValue without an executor: nil when the constant is not a plain scalar.
+func constValueOf(c *ssa.Const) (v Value) {
+	defer func() {
+		if recover() != nil {
+			v = nil
+		}
+	}()
+	if c.Value == nil {
+		if _, ok := c.Type().Underlying().(*types.Basic); !ok {
+			return nil
+		}
+	}
+	return (*Exec)(nil).constValue(c)
 }
 
 func (ex *Exec) constValue(c *ssa.Const) Value {
@@ -226,10 +315,10 @@ func (ex *Exec) invoke(fn *ssa.Function, args []Value, env []Value, site ssa.Ins
 	meta := ex.eng.metaOf(fn)
 	fr := &frame{ex: ex, fn: fn, meta: meta, env: make([]Value, meta.n)}
 	for i, p := range fn.Params {
-		fr.env[meta.index[p]] = args[i]
+		fr.env[meta.slot(p)] = args[i]
 	}
 	for i, fv := range fn.FreeVars {
-		fr.env[meta.index[fv]] = env[i]
+		fr.env[meta.slot(fv)] = env[i]
 	}
 	fr.block = fn.Blocks[0]
 	ex.stack = append(ex.stack, fr)
